@@ -1,5 +1,5 @@
 """C13 -- scheduler core (work in progress: metadata filled in below)."""
-from props.common import contract_tasks, lemma_tasks, TRUSTED_CORE
+from props.common import contract_tasks, lemma_tasks, TRUSTED_CORE, SCHED_ASSUMPTIONS
 
 PROPERTY = "C13"
 
@@ -9,11 +9,11 @@ def tasks(tier):
 
 
 TRUSTED_BASE = TRUSTED_CORE
-ASSUMPTIONS = []
-NOT_COVERED = []
-LEVEL_TEXT = 'Exact raise conditions (iff) at the four reply-validation sites of step()/get_outputs(), error message mentions the simulator id, no effect after an invalid reply (exceptional postconditions), accepted replies are valid (postconditions).'
+ASSUMPTIONS = SCHED_ASSUMPTIONS
+NOT_COVERED = ["'aborts run()': the SimulationError leaves sim_process; that World.run passes it on after shutting down is C14's World.run contract"]
+LEVEL_TEXT = 'Exact raise conditions (iff) at the reply-validation sites of step() / get_outputs() (non-int or not-later next step, output time before the step time, time-based simulator without next step), the error message mentions the simulator id, no effect after an invalid reply (exceptional postconditions), accepted replies are valid (postconditions).'
 DESIGN_REF = "DESIGN.md section 8 (C13)"
-LEVEL_NOTE = 'Trusted: pyvc encoder (Python semantics of DESIGN 3.4), the rely/guarantee meta-theorem for cooperative asyncio tasks (DESIGN 6, not mechanised), assumed contracts of asyncio/heapq, time/delay algebra axioms (each with provenance to a C08 obligation), static connection-table facts static_ok/trig_static (assumed here; established by the scenario.py contracts where built), non-real-time mode, z3/cvc5.'
-TECHNIQUE = "contract-based deductive verification (AST->z3 VCs on the real functions, global invariant, rely/guarantee at awaits)"
+LEVEL_NOTE = 'Proved for any number of simulators, any topology, any reply values and every interleaving, under the listed assumptions (evidence: assumptions, coverage.trusted_base). Trusted: pyvc encoder, the rely/guarantee meta-theorem, assumed contracts of asyncio/heapq, the time/delay algebra axioms (C08 provenance), static connection-table facts, z3/cvc5. Fixed through this check: F8 (4154261).'
+TECHNIQUE = 'contract-based deductive verification (AST->z3 VCs on the real functions, global invariant, rely/guarantee at awaits)'
 CLAIMED = True
-NA_REASON = "check under construction in this round"
+NA_REASON = ""
